@@ -8,6 +8,7 @@ func toBidirKeyR[C ~chan T | ~<-chan T, T any](c C) any { return reflect.ValueOf
 func chLen[C ~chan T | ~chan<- T, T any](c C) int  { return len(c) }
 func chCap[C ~chan T | ~chan<- T, T any](c C) int  { return cap(c) }
 func chLenR[C ~chan T | ~<-chan T, T any](c C) int { return len(c) }
+func chCapR[C ~chan T | ~<-chan T, T any](c C) int { return cap(c) }
 
 func sendReal[C ~chan T | ~chan<- T, T any](c C, v T) { c <- v }
 
